@@ -21,7 +21,8 @@ RULE = ("case = generated enum (12 reprs, 1..700 variants, 1..9 runs, anchors at
         "non-trivial = enum the pinned suite cannot express: repr != i8, or a negative value, or MIN != 0, or >= 3 "
         "runs, or touching a type limit; distinct by (repr, discriminant set, configuration)")
 
-PROFILE = S.profile(renames=0.1, dups=0.0, attrs=0.1)
+PROFILE = S.profile(renames=0.1, dups=0.0, attrs=0.1, sizes=[("small", 70), ("medium", 12), ("large", 14), ("full8", 4)],
+                    shapes=["gapless", "holes", "holes", "many", "lots", "lots"])
 
 
 @st.composite
